@@ -22,7 +22,7 @@ use hashbrown::{
     HashMap, HashSet,
     hash_map::{Entry, Keys},
 };
-use serde::{Deserialize, Serialize, de::DeserializeOwned};
+use serde::{Deserialize, Deserializer, Serialize, de::DeserializeOwned};
 use std::{
     collections::VecDeque,
     hash::Hash,
@@ -143,12 +143,28 @@ where
 {
     #[serde(rename = "v")]
     #[serde(skip_serializing_if = "Option::is_none")]
+    #[serde(default = "no_value", deserialize_with = "present_value")]
     value: Option<V>,
     #[serde(rename = "t")]
     #[serde(skip_serializing_if = "Option::is_none")]
     tree: Option<Tree<K, V>>,
     #[serde(skip, default)]
     _key_type: PhantomData<K>,
+}
+
+fn no_value<V>() -> Option<V> {
+    None
+}
+
+/// A node without value is serialized without a `v` field, so a `v` field that is present always
+/// holds a value, even if that value is `null` (`null` is a legal plain value). Deserializing the
+/// field as a plain `Option` would turn it into "no value".
+fn present_value<'de, D, V>(deserializer: D) -> Result<Option<V>, D::Error>
+where
+    D: Deserializer<'de>,
+    V: Deserialize<'de>,
+{
+    V::deserialize(deserializer).map(Some)
 }
 
 impl<K, V> Node<K, V>
